@@ -167,7 +167,10 @@ def replay(case):
         # the object that was queried above is asked for its grammar twice, the second time with another start symbol
         r5 = guard.call(rx.to_cfg, timeout=4.0)
         r6 = guard.call(lambda: rx.to_cfg(starting_symbol="T"), timeout=4.0)
-        for k, rr in enumerate((r5, r6)):
+        # ... and with starting symbols spelled like the variables the conversion introduces itself (A0, A1, ...)
+        r7 = guard.call(lambda: rx.to_cfg(starting_symbol="A1"), timeout=4.0)
+        r8 = guard.call(lambda: rx.to_cfg(starting_symbol="A0"), timeout=4.0)
+        for k, rr in enumerate((r5, r6, r7, r8)):
             e2 = {"op": "regex_cfg_again", "toks": case["toks"], "alph": talph, "L": case["L"], "call": k}
             if rr[0] == "ok":
                 e2["G"] = cfgh.project(rr[1])
